@@ -431,6 +431,7 @@ func init() {
 			a.c07Skeleton()
 			a.c07Triggers()
 			a.akeContextDropped("S.ake-dropped")
+			a.finishUnconditional("W.msg-state")
 			// what the honest peer emits is accepted: the fragment reader agrees with the fragment writer, and the
 			// committed gx is decrypted into a buffer of the length the peer encrypted
 			a.c14Sender()
